@@ -28,6 +28,7 @@ def Call(f, a, nid=0): return {"e": "call", "f": f, "a": list(a), "nid": nid}
 def New(f, a, nid=0): return {"e": "new", "f": f, "a": list(a), "nid": nid}
 def Fun(name, params, body): return {"e": "fun", "name": name, "params": list(params), "body": list(body), "arrow": False}
 def Arrow(params, body): return {"e": "fun", "name": "", "params": list(params), "body": list(body), "arrow": True}
+def XArrow(params, x): return {"e": "fun", "name": "", "params": list(params), "body": [SRet(x)], "arrow": True, "xb": True}   # (p) => x
 def Arr(a): return {"e": "arr", "a": list(a)}
 def Obj(ks, vs, kd=None): return {"e": "obj", "ks": list(ks), "kd": list(kd) if kd else ["init"] * len(ks), "vs": list(vs)}
 def Comma(a): return {"e": "seq", "a": list(a)}
@@ -64,10 +65,12 @@ def Prog(body): return {"body": list(body)}
 # declared, loops are bounded by dedicated counters.  What a program *means* is decided by TLC.
 # ------------------------------------------------------------------------------------------------
 class Gen:
-    def __init__(self, rnd, size=1.0, throwy=False):
+    def __init__(self, rnd, size=1.0, throwy=False, forms=False):
         self.r = rnd
         self.size = size
         self.throwy = throwy      # more throw statements, try statements and callbacks (C07)
+        self.forms = forms        # C05 only (it changes the random stream): functions in every construction form (declaration,
+                                  # function expression, arrow, expression-bodied arrow), functions that begin with a loop
         self.uid = 0
         self.funcs = []          # (name, nparams) callable from later code
         self.budget = 0
@@ -296,7 +299,31 @@ class Gen:
         body.append(SRet(self.int_expr(sc, 1)))
         decls = [SVar(*[(x, Num(self.r.randrange(0, 5))) for x in locs])] if locs else []
         body = decls + self.with_decls(sc, body)
+        if self.forms and kind != "rec" and self.chance(0.35):
+            body = self.leading_loop(params) + body
         return SFun(name, params, body), len(params)
+
+    def leading_loop(self, params):
+        """a while loop over the first parameter as the very first code of the function (its test is the first instruction
+        of the compiled unit); the body sees parameters and globals only (the locals are not initialised yet) and every
+        counter it needs is the parameter itself; bounded whatever the argument is"""
+        c = params[0]
+        n = self.r.randrange(1, 4)
+        lab = self.fresh("L") if self.chance(0.4) else None
+        sc = {"ints": params + self.globals, "mut": [x for x in params[1:]] + self.globals, "arrs": [], "loops": 1, "breakable": False,
+              "labels": [lab] if lab else [], "looplabels": [lab] if lab else [], "infn": True, "tries": 0, "decl": [], "calls": 0}
+        stmts = [SExpr(Upd("++", False, c))]
+        for _ in range(self.r.randrange(1, 3)):
+            k = self.r.random()
+            if k < 0.5:
+                stmts.append(SIf(self.bool_expr(sc), SBlock([self.pick([SCont(), SCont(lab) if lab else SCont(), SBreak()])])))
+            elif k < 0.7:
+                stmts.append(SSwitch(Var(c), [Case(Num(self.r.randrange(0, 3)), [SCont()]), Case(NoE, [SLog(Var(c))])]))
+            else:
+                stmts.append(SLog(self.int_expr(sc, 1)))
+        stmts.append(SLog(Var(c)))
+        loop = SWhile(And(Bin("<", Var(c), Num(n)), Bin(">", Var(c), Num(-1))), SBlock(stmts))
+        return [SLabel(lab, loop) if lab else loop]
 
     def closure_maker(self, name):
         """mk(p): a pair of closures over one captured variable; returns an object {g, s}"""
@@ -306,10 +333,30 @@ class Gen:
         a = self.fresh("q")
         sc = {"ints": [p, v, a] + self.globals, "mut": [cap] + self.globals, "arrs": [], "loops": 0, "breakable": False,
               "labels": [], "looplabels": [], "infn": True, "tries": 0, "decl": [], "calls": 0}
+        if self.forms and self.chance(0.6):
+            return self.closure_maker_forms(name, p, v, a, sc)
         setter = Fun("", [a], [SExpr(Asg(cap, self.int_expr(sc, 1))), SRet(Var(cap))])
         getter = Fun("", [], [SRet(Bin("+", Var(cap), Var(v)))])
         return SFun(name, [p], [SVar((v, self.int_expr({**sc, "ints": [p] + self.globals, "mut": []}, 1))),
                                 SRet(Obj(["g", "s"], [getter, setter]))])
+
+    def closure_maker_forms(self, name, p, v, a, sc):
+        """the same pair of closures with the maker and the closures in a random construction form; an expression-bodied
+        maker has no local: both closures work on the parameter"""
+        def fn(form, params, x):
+            return Fun("", params, [SRet(x)]) if form == 0 else Arrow(params, [SRet(x)]) if form == 1 else XArrow(params, x)
+        mform = self.r.randrange(4)                     # declaration, function expression, arrow, expression-bodied arrow
+        cap = p if mform == 3 else self.pick([p, v])
+        sc = dict(sc, ints=[p, a] + self.globals if mform == 3 else sc["ints"], mut=[cap] + self.globals)
+        setter = fn(self.r.randrange(3), [a], Comma([Asg(cap, self.int_expr(sc, 1)), Var(cap)]))
+        getter = fn(self.r.randrange(3), [], Bin("+", Var(cap), Var(p if mform == 3 else v)))
+        pair = Obj(["g", "s"], [getter, setter])
+        if mform == 3:
+            return SVar((name, XArrow([p], pair)))
+        body = [SVar((v, self.int_expr({**sc, "ints": [p] + self.globals, "mut": []}, 1))), SRet(pair)]
+        if mform == 0:
+            return SFun(name, [p], body)
+        return SVar((name, Fun("", [p], body) if mform == 1 else Arrow([p], body)))
 
     def program(self):
         self.globals = [self.fresh("g") for _ in range(self.r.randrange(1, 4))]
@@ -330,7 +377,8 @@ class Gen:
         objs = []
         if self.chance(0.6):
             mk = self.fresh("mk")
-            fdecls.append(self.closure_maker(mk))
+            d = self.closure_maker(mk)
+            (head if d["s"] == "var" else fdecls).append(d)      # a maker held by a variable must exist before the calls
             for _ in range(self.r.randrange(1, 3)):
                 o = self.fresh("o")
                 objs.append(o)
@@ -354,8 +402,8 @@ class Gen:
         return Prog(body)
 
 
-def random_program(rnd, throwy=False):
-    return Gen(rnd, throwy=throwy).program()
+def random_program(rnd, throwy=False, forms=False):
+    return Gen(rnd, throwy=throwy, forms=forms).program()
 
 
 # ------------------------------------------------------------------------------------------------
